@@ -17,6 +17,7 @@ const SHAPES = {
   arrDyn: { src: '={[x, dyn]}', value: (e) => e.bound.x, arg: (e) => e.bound.dyn, array: true },
   arrMods:{ src: "={[x, ['m1', 'm2']]}", value: (e) => e.bound.x, mods: ['m1', 'm2'], array: true },
   arrAll: { src: "={[x, 'a2', ['m1']]}", value: (e) => e.bound.x, arg: () => 'a2', mods: ['m1'], array: true },
+  arrModsOdd: { src: "={[x, ['2way', 'default', '0', '$x']]}", value: (e) => e.bound.x, mods: ['2way', 'default', '0', '$x'], array: true, narrow: true },
   arrModsMix: { src: "={[x, ['m1', 'm-2', 'ok']]}", value: (e) => e.bound.x, mods: ['m1', 'm-2', 'ok'], array: true, narrow: true },
   arrMem: { src: '={[o.p, o.q.r, ["m-1"]]}', value: (e) => e.bound.o.p, arg: (e) => e.bound.o.q.r, mods: ['m-1'], array: true },
   str:    { src: '="str"', value: () => 'str' },
